@@ -5,7 +5,8 @@
                     one stage invocation, and handed on or added back exactly once on every path.
   C28.limit-source  the slot counter of a stage is initialised from StageLimits<Stage>::limit(stage):
                     1 for a plain function (serial), max(1, limit) for stage(f, limit) -- both have
-                    lower bound 1; the scheduler's serial_/unlimited_ flags are derived from that value.
+                    lower bound 1; serial_ is (limit == 1) and unlimited_ is true exactly for the
+                    kStageNoLimit sentinel (evaluated for a family of limits and other inputs).
   C28.runner-count  the number of concurrent instances of the generator / single-stage runner is
                     bounded above by the stage limit (it is min(numPoolThreads, limit), possibly raised
                     to 1, and limit >= 1).
@@ -72,7 +73,36 @@ def run(R):
                 i = strip_casts(e.get("init"))
                 ok = isinstance(i, dict) and i.get("k") == "bin" and i.get("op") == "==" and const_val(i.get("r")) == 1
                 R.ob("C28.limit-source", fn, e, ok, "serial_ = (limit == 1)" if ok else "serial fast path enabled for %s" % expr_str(i), sitekey="serial-flag", why="the inline continuation is only safe when one item can be in the stage at a time")
-    R.need("C28.limit-source", n, 4, "limit sources")
+            if e.get("k") == "init" and e.get("fname") == "unlimited_":
+                # the ungated path is for the no-limit sentinel only -- whatever else the initialiser
+                # looks at (pool size, ...): the calling thread and other application threads execute
+                # stage tasks too, so 'limit >= pool threads' does not make a limit unreachable
+                from lib.rules import eval_int
+                n += 1
+                SENT = (1 << 63) - 1
+                bad, unknown = None, False
+                for other in (0, 1, 2, 8, 1000):
+                    for rv in (1, 2, 8, 1000, SENT - 1, SENT):
+                        def leaf(x, rv=rv, other=other):
+                            if x.get("k") == "var" and x.get("vid") == res:
+                                return rv
+                            if x.get("k") == "call" and x.get("name") == "max" and "numeric_limits" in (x.get("callee") or ""):
+                                return SENT
+                            if x.get("k") in ("call", "member") or (x.get("k") == "var" and x.get("vk") not in ("param", "local")):
+                                return other if const_val(x) is None else None
+                            return None
+                        v = eval_int(fn, e.get("init"), leaf)
+                        if v is None:
+                            unknown = True
+                        elif bool(v) != (rv == SENT) and bad is None:
+                            bad = (rv, bool(v), other)
+                if unknown and bad is None:
+                    R.inconclusive("C28.limit-source", "cannot evaluate the unlimited_ initialiser %s" % expr_str(e.get("init")))
+                else:
+                    R.ob("C28.limit-source", fn, e, bad is None, "unlimited_ is true exactly for the kStageNoLimit sentinel" if bad is None else
+                         "unlimited_ = %s is %s for a stage limit of %s (other inputs = %s): a finite limit takes the ungated path" % (expr_str(e.get("init")), bad[1], bad[0], bad[2]),
+                         sitekey="unlimited-flag", why=WHY)
+    R.need("C28.limit-source", n, 5, "limit sources")
 
     n = 0
     for fn in F.functions(qname="dispenso::detail::Pipe::execute"):
